@@ -815,6 +815,10 @@ def progress_run(arg: dict) -> dict:
 def errloc_case(arg: dict) -> dict:
     import re
     nl = "\n" if arg["final_newline"] else ""
+
+    def sub(line):
+        return line.replace("<vt>", "\x0b").replace("<nel>", "\x85").replace("<ls>", "\u2028")
+    arg = dict(arg, main=[sub(x) for x in arg["main"]], part=[sub(x) for x in arg["part"]])
     main = "\n".join(arg["main"]) + (nl if not arg["part"] else "\n")
     files = {}
     if arg["part"]:
